@@ -161,8 +161,12 @@ class IlluminaExonCorrector:
             score = IlluminaExonCorrector.MAX_SCORE
             overlapping = []
             appended = False
-        # in case of introns in the wrong order the next steps will not work so debug option here
-        if not validate_exons(get_exons((exons[0][0], exons[-1][1]), corrected_introns)):
-            logger.debug("old:", introns)
-            logger.debug("new:", corrected_introns)
-        return get_exons((exons[0][0], exons[-1][1]), corrected_introns)
+        corrected_exons = get_exons((exons[0][0], exons[-1][1]), corrected_introns)
+        # a replacement that reaches beyond a neighbouring exon makes that exon vanish or the blocks overlap: keep the read as aligned
+        if not validate_exons(corrected_exons) or len(corrected_exons) != len(corrected_introns) + 1 or \
+                corrected_exons[0][0] != exons[0][0] or corrected_exons[-1][1] != exons[-1][1] or \
+                any(corrected_exons[k][1] >= corrected_exons[k + 1][0] for k in range(len(corrected_exons) - 1)):
+            logger.debug("old: %s" % str(introns))
+            logger.debug("new: %s" % str(corrected_introns))
+            return exons
+        return corrected_exons
